@@ -23,7 +23,10 @@ CONSTANTS H,        \* number of concurrent handlers
           B,        \* bits per limb; the modelled int32 has W = 2B bits
           InitLen,  \* initial length of streamActive (code: 1024)
           Fixed,    \* see above
-          Ids       \* wire values of the server-shard-id header that are tried (a set of integers; see IdsAll/IdsClasses)
+          Ids,      \* wire values of the server-shard-id header that are tried (a set of integers; see IdsAll/IdsClasses)
+          ServeFails,      \* BOOLEAN: handleStream may also fail by a panic (captured by log.CapturePanic) - any fault of one stream
+          DeferUnreport,   \* the code: TRUE. the -1 is a deferred call, so it also runs when handleStream panics
+          LockedAdd        \* the code: TRUE. the counter add happens under streamGrowLock also when no growth is needed
 
 W == 2 * B
 MaxInt == 2 ^ (W - 1) - 1
@@ -52,20 +55,23 @@ NewSize(idx) == IF Fixed THEN Min(((idx + 1) * 9) \div 8, MaxInt + 1)         \*
 VARIABLES lock,      \* 0 = free, h = held by handler h
           len,       \* len(streamActive)
           cnt,       \* counters; indexes >= len do not exist
-          pc, id, outcome
-vars == <<lock, len, cnt, pc, id, outcome>>
+          pc, id, outcome,
+          snap       \* [Hs -> counters copied by slices.Grow, or NoSnap]: allocation+copy and publication are two steps
+vars == <<lock, len, cnt, pc, id, outcome, snap>>
+NoSnap == [i \in {-1} |-> 0]
 Hs == 1..H
 Idx(h) == Wrap(id[h])     \* history.DecodeClusterShardMD: int32(metadataValue)
 
 Init == /\ lock = 0 /\ len = InitLen /\ cnt = [i \in 0..MaxInt |-> 0]
         /\ pc = [h \in Hs |-> "start"] /\ id \in [Hs -> Ids] /\ outcome = [h \in Hs |-> "-"]
+        /\ snap = [h \in Hs |-> NoSnap]
 
 \* StreamWorkflowReplicationMessages: decode the four headers
 Decode(h) ==
   /\ pc[h] = "start"
   /\ IF id[h] = BadId THEN pc' = [pc EXCEPT ![h] = "done"] /\ outcome' = [outcome EXCEPT ![h] = "rejected"]
      ELSE pc' = [pc EXCEPT ![h] = "report"] /\ UNCHANGED outcome
-  /\ UNCHANGED <<lock, len, cnt, id>>
+  /\ UNCHANGED <<lock, len, cnt, id, snap>>
 
 \* a panic inside ReportStreamValue(+1): the deferred -1 is not registered yet; CapturePanic answers with an error.
 \* Pinned code: the lock stays with the panicking handler.  Repaired code: `defer Unlock` releases it.
@@ -74,21 +80,31 @@ Panicked(h) ==
   /\ lock' = IF Fixed THEN 0 ELSE lock
 
 \* ReportStreamValue(idx, +1): negative guard, then Lock()
+\* (~LockedAdd: a variant with a lock-free fast path when idx already fits - the add may then land between another handler's
+\* copy and publication and is lost)
 Report(h) ==
   /\ pc[h] = "report"
-  /\ IF Idx(h) < 0 THEN pc' = [pc EXCEPT ![h] = "serve"] /\ UNCHANGED lock
-     ELSE lock = 0 /\ lock' = h /\ pc' = [pc EXCEPT ![h] = "grow"]
-  /\ UNCHANGED <<len, cnt, id, outcome>>
+  /\ IF Idx(h) < 0 THEN pc' = [pc EXCEPT ![h] = "serve"] /\ UNCHANGED <<lock, cnt>>
+     ELSE IF ~LockedAdd /\ Idx(h) < len
+          THEN cnt' = [cnt EXCEPT ![Idx(h)] = @ + 1] /\ pc' = [pc EXCEPT ![h] = "serve"] /\ UNCHANGED lock
+          ELSE lock = 0 /\ lock' = h /\ pc' = [pc EXCEPT ![h] = "grow"] /\ UNCHANGED cnt
+  /\ UNCHANGED <<len, id, outcome, snap>>
 
 \* if idx >= len { newSize := ...; streamActive = slices.Grow(streamActive, newSize)[:newSize] }
 Grow(h) ==
   /\ pc[h] = "grow"
   /\ IF Idx(h) >= len
        THEN IF NewSize(Idx(h)) < 0
-              THEN Panicked(h) /\ UNCHANGED len                                  \* slices.Grow: "cannot be negative"
-              ELSE len' = NewSize(Idx(h)) /\ pc' = [pc EXCEPT ![h] = "add"] /\ UNCHANGED <<outcome, lock>>  \* may shrink!
-       ELSE pc' = [pc EXCEPT ![h] = "add"] /\ UNCHANGED <<len, outcome, lock>>
+              THEN Panicked(h) /\ UNCHANGED <<len, snap>>                          \* slices.Grow: "cannot be negative"
+              ELSE \* slices.Grow allocates and copies the counters ...
+                   snap' = [snap EXCEPT ![h] = cnt] /\ pc' = [pc EXCEPT ![h] = "publish"] /\ UNCHANGED <<len, outcome, lock>>
+       ELSE pc' = [pc EXCEPT ![h] = "add"] /\ UNCHANGED <<len, outcome, lock, snap>>
   /\ UNCHANGED <<cnt, id>>
+\* ... and the assignment publishes the copy (may shrink on the pinned tree!)
+Publish(h) ==
+  /\ pc[h] = "publish"
+  /\ len' = NewSize(Idx(h)) /\ cnt' = snap[h] /\ snap' = [snap EXCEPT ![h] = NoSnap] /\ pc' = [pc EXCEPT ![h] = "add"]
+  /\ UNCHANGED <<lock, id, outcome>>
 
 \* streamActive[idx].Add(value); Unlock()
 Add(h) ==
@@ -96,26 +112,30 @@ Add(h) ==
   /\ IF Idx(h) < len
        THEN /\ cnt' = [cnt EXCEPT ![Idx(h)] = @ + 1] /\ pc' = [pc EXCEPT ![h] = "serve"] /\ lock' = 0 /\ UNCHANGED outcome
        ELSE Panicked(h) /\ UNCHANGED cnt                                          \* index out of range
-  /\ UNCHANGED <<len, id>>
+  /\ UNCHANGED <<len, id, snap>>
 
 \* handleStream runs and returns (forwarder / LCM / routing: no shared state of this model involved)
 Serve(h) ==
-  /\ pc[h] = "serve" /\ pc' = [pc EXCEPT ![h] = "unreport"] /\ outcome' = [outcome EXCEPT ![h] = "served"]
-  /\ UNCHANGED <<lock, len, cnt, id>>
+  /\ pc[h] = "serve"
+  /\ \/ pc' = [pc EXCEPT ![h] = "unreport"] /\ outcome' = [outcome EXCEPT ![h] = "served"]
+     \* this stream fails by a panic inside handleStream: CapturePanic answers it with an error; the deferred -1 runs
+     \/ /\ ServeFails /\ outcome' = [outcome EXCEPT ![h] = "rejected-serve-panic"]
+        /\ pc' = [pc EXCEPT ![h] = IF DeferUnreport THEN "unreport" ELSE "done"]
+  /\ UNCHANGED <<lock, len, cnt, id, snap>>
 
 \* deferred ReportStreamValue(idx, -1)
 Unreport(h) ==
   /\ pc[h] = "unreport"
   /\ IF Idx(h) < 0 THEN pc' = [pc EXCEPT ![h] = "done"] /\ UNCHANGED <<lock, cnt, outcome>>
-     ELSE /\ lock = 0
+     ELSE /\ (lock = 0 \/ (~LockedAdd /\ Idx(h) < len))
           /\ IF Idx(h) < len
                THEN cnt' = [cnt EXCEPT ![Idx(h)] = @ - 1] /\ pc' = [pc EXCEPT ![h] = "done"] /\ UNCHANGED <<lock, outcome>>
                ELSE \* the slice was shrunk by another handler's wrapped size: index out of range in the deferred call
                     /\ pc' = [pc EXCEPT ![h] = "done"] /\ outcome' = [outcome EXCEPT ![h] = "served-then-panic"]
                     /\ lock' = (IF Fixed THEN 0 ELSE h) /\ UNCHANGED cnt
-  /\ UNCHANGED <<len, id>>
+  /\ UNCHANGED <<len, id, snap>>
 
-Next == \E h \in Hs : Decode(h) \/ Report(h) \/ Grow(h) \/ Add(h) \/ Serve(h) \/ Unreport(h)
+Next == \E h \in Hs : Decode(h) \/ Report(h) \/ Grow(h) \/ Publish(h) \/ Add(h) \/ Serve(h) \/ Unreport(h)
 Spec == Init /\ [][Next]_vars /\ WF_vars(Next)
 
 AllDone == \A h \in Hs : pc[h] = "done"
@@ -127,9 +147,9 @@ LockNotLeaked == \A h \in Hs : pc[h] = "done" => lock # h
 NoWedge == AllDone \/ ENABLED Next
 \* each open ends, served or rejected with an error
 EveryOpenEnds == <>AllDone
-OutcomeOK == \A h \in Hs : pc[h] = "done" => outcome[h] \in {"served", "rejected", "rejected-panic"}
+OutcomeOK == \A h \in Hs : pc[h] = "done" => outcome[h] \in {"served", "rejected", "rejected-panic", "rejected-serve-panic"}
 \* well-formed streams are served whatever the other handlers were given
-LaterStreamsServed == \A h \in Hs : WellFormed(h) => <>(outcome[h] = "served")
+LaterStreamsServed == \A h \in Hs : WellFormed(h) => <>(outcome[h] \in {"served", "rejected-serve-panic"})
 \* bookkeeping of one stream does not corrupt that of others: all counters return to zero, none goes negative
 CountersBalanced == AllDone => \A i \in 0..MaxInt : cnt[i] = 0
 CountersNonNeg == \A i \in 0..MaxInt : cnt[i] >= 0
